@@ -41,11 +41,13 @@ META = {
                    'TRANSLATOR tie 2 (vlib/extractors/pyevmain.py -> Extracted/PyEvMain.lean, Model/PyEv.lean, Model/EvMainX.lean): '
                    'SQLObject.__init__, _create, _SO_finishCreate (+ its postponed _send_RowCreatedSignal thunk), _init, _SO_setValue, set, '
                    'syncUpdate and the signal frame of destroySelf are translated WITH their sqlmeta.send calls and post-callback loops on '
-                   'every run; C19_translated_set_eq_model / _syncUpdate_eq_model / _destroySelf_eq_model prove the translated programs = '
-                   'opSet / opSyncUpdate / opDestroy for every listener list, state and kwargs (eager and lazy), and '
-                   'C19_translated_events_once_in_order / _rewrite_is_stored / _post_funcs_run_after restate the property about the '
-                   'translated source; __init__/_create/_SO_finishCreate/_init/_SO_setValue are run on concrete configurations only '
-                   '(kernel-evaluated witnesses; their all-inputs statement remains the hand model + correspondence); connection, cache, '
+                   'every run; C19_translated_set_eq_model / _setValue_eq_model (incl. the listener-changed-the-dict delegation under the suppress '
+                   'flag) / _syncUpdate_eq_model / _destroySelf_eq_model / _create_eq_model (__init__ -> _create -> set -> _SO_finishCreate -> '
+                   '_init -> thunk flush; success, validation failure, lazy) prove the translated programs = opSet / opAssign / opSyncUpdate / '
+                   'opDestroy / opCreate for every listener list, state and kwargs, and C19_translated_events_once_in_order(_create) / '
+                   '_rewrite_is_stored / _post_funcs_run_after restate the property about the translated source; still hand model + '
+                   'correspondence only: get / select (no events), the inheritance chain (C19_created_after_all_levels) and listeners that '
+                   'create rows of another class; create needs >= 1 column and a fresh next id; connection, cache, '
                    'validators and the cascade inside destroySelf are stated parameters (header of Model/EvMainX.lean). '
                    'Trusted: Lean kernel; pydispatch delivery order (modelled as connection order, checked by the '
                    'correspondence run); the sampling correspondence.  The lazy path is stated as the code behaves: a lazy '
